@@ -1,8 +1,8 @@
 (* Api.v — uniquely named entry points of the executable model: what the OCaml driver (extracted)
    and the in-Coq cross-check (cases.v, vm_compute) both call. *)
-From Coq Require Import List NArith Bool.
+From Coq Require Import List NArith ZArith Bool.
 Import ListNotations.
-From RV Require Import Base.Str Base.PathLex Path.Clean Path.CleanSpec Path.Relative Path.Helpers Path.HelpersFacts.
+From RV Require Import Base.Str Base.PathLex Path.Clean Path.CleanSpec Path.Relative Path.Helpers Path.HelpersFacts Core.Iter.
 
 Definition api_components := components.
 Definition api_push := push.
@@ -55,3 +55,21 @@ Definition api_parse_paths := parse_paths.
 Definition api_is_empty := is_empty.
 Definition api_trim_protocol := trim_protocol.
 Definition api_kf_ext_class := kf_ext_class.
+
+(* ---- C19 ---- *)
+Definition nseq (len : nat) : list N := map N.of_nat (seq 0 len).
+Definition api_it_drop (len : nat) (n : Z) := Iter.drop n (nseq len).
+Definition api_it_drop_spec (len : nat) (n : Z) := drop_spec n (nseq len).
+Definition api_it_slice (len : nat) (l r : Z) := slice l r (nseq len).
+Definition api_it_slice_spec (len : nat) (l r : Z) := slice_spec l r (nseq len).
+Definition api_it_first (len : nat) := it_first (nseq len).
+Definition api_it_first_result (len : nat) := it_first_result (nseq len).
+Definition api_it_last_result (len : nat) := it_last_result (nseq len).
+Definition api_it_single (len : nat) := it_single (nseq len).
+Definition api_it_some (len : nat) := it_some (nseq len).
+Definition api_it_consume (len : nat) := it_consume (nseq len).
+Definition api_str_size (s : list N) := N.of_nat (str_size s).
+Definition api_str_to_bool := str_to_bool.
+Definition api_str_trim_suffix := str_trim_suffix.
+Definition api_opt_has (o : option N) (x : N) := opt_has N.eqb o x.
+Definition api_take_while_ne (c : N) (s : list N) := take_while_p (fun x => negb (N.eqb x c)) s.
